@@ -47,6 +47,9 @@ pub struct Scn {
     pub nested_dirs: bool,
     pub encoder: EncKind,
     pub phases: Vec<Phase>,
+    /// records (tid, n) whose encoder returns Err part-way (profile C04-encfail)
+    #[serde(default)]
+    pub enc_fail: Vec<(u16, u16)>,
     pub sched_seed: u64,
     pub policy: kernel::Policy,
 }
@@ -82,6 +85,25 @@ pub fn gen_blob(rng: &mut Rng) -> Vec<u8> {
         .collect()
 }
 
+pub fn generate_encfail(rng: &mut Rng, tier: Tier) -> Scn {
+    let mut s = generate(rng, tier);
+    if !matches!(s.encoder, EncKind::Chunk { .. }) {
+        s.encoder = EncKind::Chunk { seed: rng.next_u64() };
+    }
+    let mut tid_base = 0u16;
+    for ph in &s.phases {
+        for (ti, t) in ph.threads.iter().enumerate() {
+            for r in t {
+                if rng.chance(1, 4) {
+                    s.enc_fail.push((tid_base + ti as u16, r.n));
+                }
+            }
+        }
+        tid_base += ph.threads.len() as u16;
+    }
+    s
+}
+
 pub fn generate(rng: &mut Rng, tier: Tier) -> Scn {
     let big = tier == Tier::Thorough && rng.chance(1, 4);
     let nphases = rng.weighted(&[6, 3, 1]) + 1;
@@ -110,6 +132,7 @@ pub fn generate(rng: &mut Rng, tier: Tier) -> Scn {
         nested_dirs: rng.chance(1, 4),
         encoder: if rng.chance(2, 3) { EncKind::Chunk { seed: rng.next_u64() } } else { EncKind::Pattern },
         phases,
+        enc_fail: vec![],
         sched_seed: rng.next_u64(),
         policy: common::gen_policy(rng),
     }
@@ -120,6 +143,8 @@ struct Model {
     base: Vec<u8>,
     /// invoked records of this phase: id -> (invoke stamp, return stamp)
     inv: HashMap<RecId, (u64, Option<u64>)>,
+    /// records whose append returned Err after an injected encoder failure
+    failed: HashSet<RecId>,
     switched_inside: bool,
 }
 
@@ -139,7 +164,36 @@ fn check_file(
         sink.fail(P, "C04-I6", "prefix", format!("{} (file {} bytes, expected prefix {} bytes)", inv, data.len(), m.base.len()));
         return;
     }
-    let parsed = frame::parse(data, m.base.len());
+    // strict parse, except that fragments of records whose append failed (an
+    // injected encoder error) may remain anywhere: unacknowledged data may be
+    // present or absent, never anything else
+    let items = frame::scan(data, m.base.len());
+    let n_items = items.len();
+    let mut parsed = frame::Parsed { recs: vec![], torn: None, garbage: None };
+    for (i, it) in items.into_iter().enumerate() {
+        match it {
+            frame::Item::Whole { id, start, end } => parsed.recs.push((id, start, end)),
+            frame::Item::Torn { id, start, .. } => {
+                let of_failed = match id {
+                    Some(id) => m.failed.contains(&id),
+                    None => !m.failed.is_empty(),
+                };
+                if of_failed {
+                    continue;
+                }
+                if i + 1 == n_items {
+                    parsed.torn = Some((id, start));
+                } else {
+                    parsed.garbage = Some((start, format!("torn record {:?} in the middle of the file", id)));
+                    break;
+                }
+            }
+            frame::Item::Junk { start, why, .. } => {
+                parsed.garbage = Some((start, why));
+                break;
+            }
+        }
+    }
     if let Some((off, why)) = &parsed.garbage {
         sink.fail(P, "C04-I2", "garbage", format!("file is not a concatenation of whole records at offset {}: {}", off, why));
         return;
@@ -166,7 +220,7 @@ fn check_file(
                 sink.fail(P, "C04-I3", "phantom", format!("record {} in file was never written in this phase", id));
                 return;
             }
-            Some((_, None)) if quiescent => {
+            Some((_, None)) if quiescent && !m.failed.contains(id) => {
                 sink.fail(P, "C04-I3", "phantom", format!("record {} in file but its append never returned Ok", id));
                 return;
             }
@@ -241,7 +295,10 @@ pub fn execute(scn: &Scn, opts: &ExecOpts) -> Outcome {
     'phases: for (pi, ph) in scn.phases.iter().enumerate() {
         let appender = match FileAppender::builder()
             .append(ph.append)
-            .encoder(common::make_encoder(&scn.encoder))
+            .encoder(match &scn.encoder {
+                EncKind::Chunk { seed } if !scn.enc_fail.is_empty() => Box::new(common::ChunkEncoder { seed: *seed, fail: scn.enc_fail.clone() }),
+                e => common::make_encoder(e),
+            })
             .build(&path)
         {
             Ok(a) => Arc::new(a),
@@ -278,7 +335,7 @@ pub fn execute(scn: &Scn, opts: &ExecOpts) -> Outcome {
             }
         }
         k.note("phase", &format!("{} append={}", pi, ph.append));
-        let model = Arc::new(Mutex::new(Model { base: base.clone(), inv: HashMap::new(), switched_inside: false }));
+        let model = Arc::new(Mutex::new(Model { base: base.clone(), inv: HashMap::new(), failed: HashSet::new(), switched_inside: false }));
         let in_cs = Arc::new(Mutex::new(0u32)); // threads between invoke and return
         let mut bodies: Vec<Box<dyn FnOnce() + Send>> = vec![];
         let tid_base: u16 = scn.phases[..pi].iter().map(|p| p.threads.len() as u16).sum();
@@ -291,6 +348,7 @@ pub fn execute(scn: &Scn, opts: &ExecOpts) -> Outcome {
             let tid = tid_base + ti as u16;
             let append_mode = ph.append;
             let in_cs = in_cs.clone();
+            let enc_fail = scn.enc_fail.clone();
             bodies.push(Box::new(move || {
                 for r in recs {
                     let id = RecId { tid, n: r.n };
@@ -319,6 +377,9 @@ pub fn execute(scn: &Scn, opts: &ExecOpts) -> Outcome {
                         Ok(()) => {
                             kernel::note("return", &format!("{} ok", id));
                             let mut m = model.lock().unwrap();
+                            if enc_fail.contains(&(id.tid, id.n)) {
+                                sink.probe("encoder_failure_swallowed", 1);
+                            }
                             m.inv.get_mut(&id).unwrap().1 = Some(s1);
                             match fs::read(&path) {
                                 Ok(data) => check_file(&sink, &m, &data, Some(id), false, append_mode),
@@ -327,7 +388,18 @@ pub fn execute(scn: &Scn, opts: &ExecOpts) -> Outcome {
                         }
                         Err(e) => {
                             kernel::note("return", &format!("{} err", id));
-                            sink.fail(P, "C04-E0", "append-failed", format!("append of {} failed although nothing was injected: {}", id, e));
+                            if enc_fail.contains(&(id.tid, id.n)) {
+                                // injected encoder failure: the record is unacknowledged; everything
+                                // acknowledged so far must still be intact
+                                let mut m = model.lock().unwrap();
+                                m.failed.insert(id);
+                                sink.probe("encoder_failures", 1);
+                                if let Ok(data) = fs::read(&path) {
+                                    check_file(&sink, &m, &data, None, false, append_mode);
+                                }
+                            } else {
+                                sink.fail(P, "C04-E0", "append-failed", format!("append of {} failed although nothing was injected: {}", id, e));
+                            }
                         }
                     }
                     kernel::point("op.done");
@@ -355,11 +427,21 @@ pub fn execute(scn: &Scn, opts: &ExecOpts) -> Outcome {
                 drop(appender);
                 // dropping the appender must not change the file
                 match fs::read(&path) {
-                    Ok(d2) if d2 == data => {}
-                    Ok(d2) => sink.fail(P, "C04-I3", "drop-changed-file", format!("closing the appender changed the file ({} -> {} bytes)", data.len(), d2.len())),
-                    Err(_) => {}
+                    Ok(d2) if d2 == data => base = data,
+                    Ok(d2) if !m.failed.is_empty() => {
+                        // the buffered fragment of a record whose encoder failed may be written out on close
+                        check_file(&sink, &m, &d2, None, true, ph.append);
+                        if !d2.starts_with(&data) {
+                            sink.fail(P, "C04-I3", "drop-changed-file", format!("closing the appender rewrote the file ({} -> {} bytes)", data.len(), d2.len()));
+                        }
+                        base = d2;
+                    }
+                    Ok(d2) => {
+                        sink.fail(P, "C04-I3", "drop-changed-file", format!("closing the appender changed the file ({} -> {} bytes)", data.len(), d2.len()));
+                        base = data;
+                    }
+                    Err(_) => base = data,
                 }
-                base = data;
             }
             Err(e) => {
                 sink.fail(P, "C04-I1", "unreadable", format!("file unreadable at quiescence: {}", e));
@@ -422,6 +504,11 @@ pub fn shrink(s: &Scn) -> Vec<Scn> {
             }
         }
     }
+    for i in 0..s.enc_fail.len() {
+        let mut c = s.clone();
+        c.enc_fail.remove(i);
+        out.push(c);
+    }
     // simplify
     if s.pre.as_ref().map(|p| !p.is_empty()).unwrap_or(false) {
         let mut c = s.clone();
@@ -436,7 +523,7 @@ pub fn shrink(s: &Scn) -> Vec<Scn> {
         c.nested_dirs = false;
         out.push(c);
     }
-    if s.encoder != EncKind::Pattern {
+    if s.encoder != EncKind::Pattern && s.enc_fail.is_empty() {
         let mut c = s.clone();
         c.encoder = EncKind::Pattern;
         out.push(c);
